@@ -388,6 +388,23 @@ Definition walk_order_ok (c : copts) (o : xopts) (t : tree) (order : list path) 
   Permutation (map fst t) order /\
   (c_keep_dir c = true -> o_overwrite o = false -> parents_first order).
 
+(* the two premises with their definitions unfolded (for readers of Props/C02.v) *)
+Lemma premises_unfolded : forall c o t order,
+  (tree_ok t <->
+     NoDup (map fst t) /\
+     (forall p n, In (p, n) t -> p <> [] /\
+        match n with
+        | TFile _ _ _ xs => StronglySorted (fun a b => bytes_ltb (fst a) (fst b) = true) xs
+        | TDir _ => True
+        | TLink tg => tg <> [] /\ utf8_valid tg = true
+        end) /\
+     (forall p q n m, In (p, n) t -> In (q, m) t -> (exists b, b <> [] /\ q = p ++ b) -> exists md, n = TDir md)) /\
+  (walk_order_ok c o t order <->
+     Permutation (map fst t) order /\
+     (c_keep_dir c = true -> o_overwrite o = false ->
+      forall l1 p l2 q, order = l1 ++ p :: l2 -> In q l1 -> ~ (exists b, b <> [] /\ q = p ++ b))).
+Proof. intros c o t order. split; split; intros H; exact H. Qed.
+
 (* ================================================================================================= *)
 Section CE.
 Variable out : path.
